@@ -96,7 +96,14 @@ func runMouse(cfg hx.Config, ch *simrt.Chooser, reps []mrep, text []string, cuts
 		if i < len(text) && text[i] != "" {
 			in = append(in, text[i]...)
 			for _, c := range text[i] {
-				want = append(want, runeDesc(c, 0))
+				if c == 0x1b {
+					// an ESC typed right before the next report (or last of
+					// all): it is delivered as Esc, and the report after it
+					// is still a mouse event
+					want = append(want, keyDesc(tcell.KeyEsc, 0))
+				} else {
+					want = append(want, runeDesc(c, 0))
+				}
 				strict = append(strict, true)
 			}
 		}
@@ -362,10 +369,13 @@ func TestC12(t *testing.T) {
 				text = append(text, "")
 			}
 			if rapid.IntRange(0, 3).Draw(rt, "txt") == 0 {
-				text = append(text, rapid.SampledFrom([]string{"a", "M", "m", "<", ";", "é", "0"}).Draw(rt, "t"))
+				text = append(text, rapid.SampledFrom([]string{"a", "M", "m", "<", ";", "é", "0", "\x1b", "\x1b"}).Draw(rt, "t"))
 			} else {
 				text = append(text, "")
 			}
+		}
+		if len(text) > 0 && text[len(text)-1] == "\x1b" {
+			text[len(text)-1] = "" // (a lone trailing ESC is C03's business: it needs the timeout)
 		}
 		var cuts []int
 		nc := rapid.IntRange(0, 8).Draw(rt, "ncuts")
@@ -385,6 +395,16 @@ func TestC12(t *testing.T) {
 		case 2:
 			pre.W2, pre.H2 = rapid.IntRange(1, 24).Draw(rt, "w2"), rapid.IntRange(1, 12).Draw(rt, "h2")
 			pre.Race, pre.Yields = true, rapid.IntRange(0, 12).Draw(rt, "yields")
+		}
+		if pre.ReEnable > 0 && pre.Flags < 0 && pre.ReEnable-1 < len(text) && text[pre.ReEnable-1] == "\x1b" {
+			text[pre.ReEnable-1] = "" // (an ESC still pending when the screen is suspended is dropped with it)
+		}
+		if pre.Race {
+			for i := range text {
+				if text[i] == "\x1b" {
+					text[i] = ""
+				}
+			}
 		}
 		ch := hx.DrawChooser(rt, 60)
 		hx.Arm("C12")
